@@ -16,6 +16,10 @@ func init() { register("C08", checkC08) }
 //   Field(f) | Implied(self) | Implied(f) | TypeOf(f)
 // WithoutOptionalAttributesDeep is transparent.
 
+// typeTermEnv binds parameters of a helper being expanded to the receiver field their argument was
+// loaded from at the call site (so that wrapped.impliedType() in the helper reads Implied(Wrapped)).
+var typeTermEnv = map[ssa.Value]string{}
+
 func typeTerm(v ssa.Value, recv *ssa.Parameter, depth int) string {
 	if depth > 15 {
 		return "?"
@@ -104,6 +108,9 @@ func typeTerm(v ssa.Value, recv *ssa.Parameter, depth int) string {
 						}
 					}
 				}
+				if f, ok := typeTermEnv[x.Call.Value]; ok {
+					return "Implied(" + f + ")"
+				}
 				return "Implied(?)"
 			}
 			if len(x.Call.Args) > 0 && (x.Call.Args[0] == ssa.Value(recv) || isSpillOf(x.Call.Args[0], recv)) {
@@ -186,7 +193,7 @@ func valueTerm(v ssa.Value, recv *ssa.Parameter) (string, bool) {
 }
 
 func checkC08(c *Ctx) {
-	c.Rule("R1 typeterm: for every hcldec Spec kind, every freshly constructed value that decode can return (cty.UnknownVal/NullVal/ListValEmpty/SetValEmpty/MapValEmpty/EmptyObjectVal/EmptyTupleVal/DynamicVal/StringVal on the absent, empty, unknown-body and error paths) has a type term equal to the term of that spec's impliedType(), modulo WithoutOptionalAttributesDeep, unless the implied type is dynamic")
+	c.Rule("R1 typeterm: for every hcldec Spec kind, every freshly constructed value that decode (or an unexported helper it returns the result of) can return (cty.UnknownVal/NullVal/ListValEmpty/SetValEmpty/MapValEmpty/EmptyObjectVal/EmptyTupleVal/DynamicVal/StringVal on the absent, empty, unknown-body and error paths) has a type term equal to the term of that spec's impliedType(), modulo WithoutOptionalAttributesDeep, unless the implied type is dynamic; and no decode whose implied type is a fixed term returns the raw result of an expression evaluation (it must pass convert.Convert or be replaced by an unknown of the implied type)")
 	pkg := c.P.Pkg("hcldec")
 	specI := pkg.Types.Scope().Lookup("Spec").Type().Underlying().(*types.Interface)
 	nSpecs, nRets := 0, 0
@@ -218,7 +225,7 @@ func checkC08(c *Ctx) {
 				}
 			}
 		}
-		if implied == "?" || strings.HasPrefix(implied, "mixed") {
+		if strings.Contains(implied, "?") || strings.HasPrefix(implied, "mixed") {
 			// computed from the child specs (ObjectSpec, TupleSpec) or from a function's return
 			// type (TransformFuncSpec): only Implied(self) can be compared
 			implied = "Computed"
@@ -249,9 +256,66 @@ func checkC08(c *Ctx) {
 				cands = append(cands, v)
 			}
 			expand(r.Results[0])
+			// helpers: a value returned by an unexported hcldec helper is judged by the helper's own
+			// fresh returns, with the helper's Spec parameters bound to the receiver fields passed
+			type cand struct {
+				v    ssa.Value
+				recv *ssa.Parameter
+				env  map[ssa.Value]string
+			}
+			var all []cand
 			for _, v := range cands {
-				term, fresh := valueTerm(v, dec.Params[0])
+				all = append(all, cand{v, dec.Params[0], nil})
+				var call *ssa.Call
+				switch x := v.(type) {
+				case *ssa.Extract:
+					if x.Index == 0 {
+						call, _ = x.Tuple.(*ssa.Call)
+					}
+				case *ssa.Call:
+					call = x
+				}
+				if call == nil {
+					continue
+				}
+				cal := call.Call.StaticCallee()
+				if cal == nil || fnPkg(cal) == nil || fnPkg(cal).Path() != modPath+"/hcldec" || cal.Object() == nil || cal.Object().Exported() || cal.Name() == "decode" || len(cal.Blocks) == 0 {
+					continue
+				}
+				env := map[ssa.Value]string{}
+				for i, a := range call.Call.Args {
+					if i < len(cal.Params) {
+						if lf := loadedField(a); lf != nil {
+							env[cal.Params[i]] = lf.Name()
+						}
+					}
+				}
+				for _, hb := range cal.Blocks {
+					if hr, ok := hb.Instrs[len(hb.Instrs)-1].(*ssa.Return); ok && len(hr.Results) > 0 && isCtyValue(hr.Results[0].Type()) {
+						hv := lookThrough(hr.Results[0])
+						if phi, ok := hv.(*ssa.Phi); ok {
+							for _, e := range phi.Edges {
+								all = append(all, cand{e, nil, env})
+							}
+						} else {
+							all = append(all, cand{hv, nil, env})
+						}
+					}
+				}
+			}
+			for _, cd := range all {
+				v := cd.v
+				typeTermEnv = cd.env
+				term, fresh := valueTerm(v, cd.recv)
+				typeTermEnv = map[ssa.Value]string{}
 				if !fresh {
+					// the raw result of evaluating an expression has whatever type the expression has
+					if rawEvaluation(v) && implied != "Dyn" && implied != "Computed" {
+						nRets++
+						c.Sites++
+						c.Fail("typeterm", fmt.Sprintf("hcldec.%s.decode:return[%s]=raw", name, rd[r]), r.Pos(),
+							"decode returns the result of evaluating an expression as it is, without converting it to the implied type "+implied+": on this path the decoded value has whatever type the expression produced (e.g. cty.DynamicVal after an evaluation error)")
+					}
 					continue
 				}
 				nRets++
@@ -281,6 +345,24 @@ func checkC08(c *Ctx) {
 	c08UnknownBody(c)
 	c.NotCovered("values assembled from decoded children (ListVal(elems), ObjectVal(vals)): conformance there is inductive over values")
 	c.NotCovered("the 'exactly the described value' clause for error-free decoding; panics of cty constructors on inconsistent element types")
+}
+
+// rawEvaluation: v is result 0 of Expression.Value(ctx).
+func rawEvaluation(v ssa.Value) bool {
+	ex, ok := v.(*ssa.Extract)
+	if !ok || ex.Index != 0 {
+		return false
+	}
+	call, ok := ex.Tuple.(*ssa.Call)
+	if !ok {
+		return false
+	}
+	if call.Call.IsInvoke() {
+		return call.Call.Method.Name() == "Value" && isNamed(call.Call.Value.Type(), modPath, "Expression")
+	}
+	// a custom expression decoder registered for a capsule type returns values of that type by the
+	// contract of ext/customdecode: not raw in this sense
+	return false
 }
 
 // R2: block specs agree on unknown bodies (shared with C18).
